@@ -23,8 +23,8 @@ T = "MetadorModel.C12."
 LEAN = dict(
     modules=["MetadorModel.Props.C12"],
     theorems=[T + n for n in [
-        "roundtrip", "roundtrip_idempotent", "decode_valid", "constants_forced", "constants_ignored", "omitted_optional_stable",
-        "explicit_none_reads_default", "roundtrip_needs_unit"]],
+        "roundtrip", "roundtrip_at", "roundtrip_idempotent", "constants_forced", "constants_ignored", "omitted_optional_stable",
+        "explicit_none_reads_default", "roundtrip_needs_unit", "legacy_opaque_not_serialisable"]],
     drivers=["drv_cod"],
 )
 
@@ -479,10 +479,12 @@ def run(ctx):
         "strings sent to the model use ASCII whitespace only (the oracle also uses others)",
     ]
     load_nf(ctx)
-    cases = core.load_corpus(ID) + focused_families() + gen_fam_cases(ctx, 60 if ctx.quick else 1200)
-    ctx.correspond("codec-families", MOD, [c for c in cases if c["kind"] == "fam"], lines, "drv_cod", compare=compare, timeout=120)
+    corpus = core.load_corpus(ID)
+    fam_cases = [c for c in corpus if c["kind"] == "fam"] + focused_families() + gen_fam_cases(ctx, 300 if ctx.quick else 6000)
+    ensure_nf(ctx, fam_cases)
+    ctx.correspond("codec-families", MOD, fam_cases, lines, "drv_cod", compare=compare, timeout=120)
     names = installed_names()
-    inst = [c for c in cases if c["kind"] == "inst"] + gen_inst_cases(ctx, names)
+    inst = [c for c in corpus if c["kind"] in ("inst", "inst1")] + gen_inst_cases(ctx, names)
     res = pool.run(MOD, "impl", inst, timeout=300)
     seen_valid = {}
     for c, r in zip(inst, res):
@@ -494,11 +496,16 @@ def run(ctx):
         for d in r["ok"]["oracle"]:
             ctx.oracle_hit(c, d, group="installed")
         seen_valid[c["schema"]] = seen_valid.get(c["schema"], 0) + r["ok"].get("nvalid", 0)
-        ctx.note_case(c, r["ok"]["tags"], c["n"])
+        ctx.note_case(c, r["ok"]["tags"], c.get("n", len(c.get("inputs", []))))
     for n in names:
         if not seen_valid.get(n):
             raise lean.InfraError("no valid instance generated for installed schema %s" % n)
-    ctx.notes.append("installed schemas exercised: %s" % ", ".join("%s(%d)" % (n, seen_valid[n]) for n in names))
+    ctx.notes.append("installed schemas exercised (valid instances): %s" % ", ".join("%s(%d)" % (n, seen_valid[n]) for n in names))
+    if any(t.startswith("tag:forward-refs-unresolved") for t in ctx.dist):
+        ctx.notes.append("core.packerinfo: field `packer: PGPacker.PluginRef` is an unresolved forward reference in a fresh process (instantiation raises ConfigError "
+                         "until `.Partial` / `update_forward_refs()` is touched); the harness calls update_forward_refs() before generating instances")
+    ctx.notes.append("observations outside the statement: the Duration parser drops years and months (\"P1Y\" is read as zero seconds; the instance then round-trips); "
+                     "a zero PintQuantity *object* is refused by its own parser (`if not v`), JSON/YAML/bytes are not affected")
     if not ctx.quick:
         ctx.exhaustive_spaces.append("every string of the value pools through the three opaque codecs (normal-form fixed point)")
 
